@@ -344,7 +344,7 @@ class DiskWorld:
             return v
         if hard:
             self.stats["reach_load/returned_right_music_despite_read_fault"] += 1
-        self.log.add("load", name, "ok", sorted(fired))
+        self.log.add("load", name, "ok", sorted(fired), core.digest_of(got))
         return None
 
     def _torn(self, ev, name, idx):
@@ -873,7 +873,8 @@ class LoadWorld:
             return v
         if hard:
             self.stats["reach_load/returned_right_music_despite_read_fault"] += 1
-        self.log.add("load", "ok", sorted(fired), len(seqs))
+        self.log.add("load", "ok", sorted(fired), len(seqs),
+                     core.digest_of([observe.raw_snapshot(q.abs._messages) for q in seqs]))
         return None
 
 
